@@ -167,6 +167,28 @@ reg(
     "DESIGN.md §3 C06",
 )
 
+reg(
+    "C14",
+    "exploration",
+    "model-based testing: Hypothesis-generated operation histories over several projects against a reference model (slot lists + owner map), invariants after every step",
+    "Histories of new_module / attach_module / += / attach_pattern / note.mod operations over 2-3 projects, interleaved with save/load and with "
+    "reloads that empty generated interior positions, are run against a slot-list model: index/parent/output invariants, lowest-gap placement, "
+    "refused foreign attachments leave every project unchanged, re-attach is a no-op, note module references resolve positionally.",
+    "attach_module(None) is taken as the public way to append an empty position.",
+    "DESIGN.md §3 C14",
+)
+reg(
+    "C17",
+    "exploration",
+    "Hypothesis-generated object pairs with generated mutation sequences on one of them; non-interference oracle on snapshot and saved bytes of the other",
+    "Pairs (A, B) of synth-wrapped modules of every type or of projects, with B constructed independently, of another type, cloned from A or "
+    "loaded from the same bytes; catalogue-driven mutations (incl. in-place element mutations of list payloads and link operations) are applied to "
+    "A and B's snapshot and saved bytes must not change at any step; for clones also in reverse; a fresh object of A's type constructed "
+    "afterwards must equal a pristine one.",
+    "B never participates in A's link operations or embedded structures (those couplings are designed).",
+    "DESIGN.md §3 C17",
+)
+
 NOT_APPLICABLE = {}
 
 ALL = ["C%02d" % i for i in range(1, 21)]
